@@ -2,7 +2,9 @@
 Proof: Properties/C05.v (tiling, line/column, preprocessor offsets, synthetic ';').
 Tie: token correspondence model vs tokenize_program on in-domain texts.
 Search: the property itself evaluated on the implementation's tokens, identifiers and diagnostics."""
+import os
 import re
+import subprocess
 
 import gen_text
 import gen_prog
@@ -10,7 +12,7 @@ import gen_sem
 import vlib
 from vlib import hexs
 
-NEED_BIN = False
+NEED_BIN = True
 MANIFEST_ENTRY = {
     "technique": "Coq proof (induction over the text) of span tiling, line/column and offset preservation for an executable "
                  "lexer model driven by the token table regenerated from token.rs; model/implementation correspondence on "
@@ -249,6 +251,58 @@ def check_sem_labels(run):
     return by_code
 
 
+def check_cli_positions(run):
+    """what the command line prints: for a file with one syntax error `ironplcc check` and `ironplcc echo` must both print the
+    diagnostic against the line and column of its label (computed from the label's offset in the text)"""
+    rng = run.rng
+    binp = vlib.ironplcc_bin()
+    if not os.path.exists(binp):
+        return 0
+    texts = []
+    n = 30 if run.tier == "quick" else 300
+    tries = 0
+    while len(texts) < n and tries < 20 * n:
+        tries += 1
+        t = gen_prog.render(gen_prog.gen_library(rng), gen_prog.Spelling(rng, respell=True))
+        lines = t.split("\n")
+        cand = [i for i, l in enumerate(lines) if ":=" in l]
+        if len(cand) < 1 or len(lines) < 4:
+            continue
+        i = rng.choice(cand)
+        lines[i] = lines[i].replace(":=", ":= :=", 1) if rng.random() < 0.5 else lines[i].replace(":=", "", 1)
+        texts.append("\n".join(lines))
+    res = vlib.run_impl([{"id": i, "op": "parse", "text": hexs(t), "file": "x.st"} for i, t in enumerate(texts)], run.workdir)
+    d = os.path.join(run.workdir, "cli_pos")
+    os.makedirs(d, exist_ok=True)
+    checked = 0
+    for i, t in enumerate(texts):
+        r = res[i]
+        if "err" not in r:
+            continue
+        b = t.encode("utf-8")
+        line, cols = line_col(b, r["err"]["start"])
+        p = os.path.join(d, "f%d.st" % i)
+        with open(p, "w", encoding="utf-8") as f:
+            f.write(t)
+        run.count(("clipos", t), True, "cli-position")
+        for cmd in ("check", "echo"):
+            pr = subprocess.run([binp, cmd, p], stdout=subprocess.PIPE, stderr=subprocess.PIPE, timeout=60)
+            err = re.sub(r"\x1b\[[0-9;]*m", "", pr.stderr.decode("utf-8", "replace"))
+            m = re.search(r"error\[(P\d+)\][^\n]*\n\s*┌─ ([^\n]*?):(\d+):(\d+)", err)
+            if not m:
+                run.violation("impl-violates-property", "`ironplcc %s` prints no located diagnostic for a file with a syntax error" % cmd,
+                              {"input": {"text": t}, "op": "cli-" + cmd, "stderr": err[-600:]})
+                continue
+            pl, pc = int(m.group(3)) - 1, int(m.group(4)) - 1
+            checked += 1
+            if pl != line or pc not in cols:
+                run.violation("impl-violates-property",
+                              "`ironplcc %s` prints %s at line %d column %d; its label starts at line %d column %s (1-based) of the file" % (
+                                  cmd, m.group(1), pl + 1, pc + 1, line + 1, sorted(c + 1 for c in cols)),
+                              {"input": {"text": t}, "op": "cli-" + cmd, "stderr": err[-600:]})
+    return checked
+
+
 def model_tokens(fields):
     dom = fields[0] == "1"
     toks = []
@@ -348,8 +402,10 @@ def search(run, info):
                 run.violation("impl-violates-property", "syntax diagnostic label [%d,%d) in %r is not inside the file" % (
                     d["start"], d["end"], d["file"]), {"input": {"text_hex": hexs(t), "text": t}, "op": "parse"})
     sem_labels = check_sem_labels(run)
+    cli_positions = check_cli_positions(run)
     return {"coverage": {
         "semantic_diagnostic_labels_checked_by_code": sem_labels,
+        "cli_printed_positions_checked": cli_positions,
         "rule": "texts = fixed corpus of lexical edge cases + repository fixtures + random token soups (keywords in random "
                 "case, identifiers, numbers, strings, comments with line breaks and non-ASCII, OSCAT blocks, CRLF, FF, "
                 "invalid characters, unterminated constructs) + generated programs in random spellings; non-trivial = non-empty "
